@@ -390,11 +390,14 @@ func (fi *FuncInfo) symKilled(s *Sym, from ssa.Instruction, use ssa.Instruction)
 
 func expandDeref(locs map[Loc]bool) {
 	for l := range locs {
-		if f, ok := l.(*types.Var); ok {
+		if f, ok := l.(*types.Var); ok && (curProg == nil || curProg.addrTaken()[f]) {
 			locs[derefClass(f.Type())] = true
 		}
 	}
 }
+
+// curProg is the program being analysed (one per process).
+var curProg *Prog
 
 // ---- implication -------------------------------------------------------------
 
